@@ -2,7 +2,7 @@
     Only statements; every proof is [exact <lemma from IndProofs.Limiter*Proofs>].
     Instants are integer nanoseconds.  [rl_*] = RateLimiter of a draw target
     (src/draw_target.rs:441-493), [ap_*] = the limiter inside AtomicPosition
-    (src/state.rs:540-612), [sys_*] = a stand-alone bar, or the members of a MultiProgress, in
+    (src/state.rs:547-619), [sys_*] = a stand-alone bar, or the members of a MultiProgress, in
     front of a target (model/Limiter.v).  All statement vocabulary is defined in model/Limiter.v
     (and model/LimiterSys.v for the agreement theorem); what is restricted carries `_partial`.
     Order: limiter level (verdicts of `allow`), then system level (painted frames of [sys_run],
@@ -76,7 +76,7 @@ Print Assumptions C05_interval.
 (** WINDOW BOUND, position limiter (inc/dec/set_position): in every window [s, s+T] at most
     10 + T/1ms + 1 updates request a redraw: count * 10^6 <= 11 * 10^6 + T_ns.  reset() calls
     may be interleaved.  Hypothesis [ap_times_ok]: the bar is younger than 2^64 ns (584 years),
-    so that `as_nanos() as u64` (state.rs:566) does not truncate. *)
+    so that `as_nanos() as u64` (state.rs:573) does not truncate. *)
 Theorem C05_pos_window_bound : forall (t0 : N) (ops : list apop) (s T : N),
   nondec t0 (map apop_time ops) -> ap_times_ok t0 ops ->
   allowed_in s (s + T) (map apop_time ops) (ap_run (ap_new t0) ops) * 1000000
@@ -93,7 +93,7 @@ Theorem C05_pos_liveness : forall (t0 : N) (ops : list apop) (now : N),
 Proof. exact ap_liveness. Qed.
 Print Assumptions C05_pos_liveness.
 
-(** NO UNDERFLOW + NORMAL FORM, position limiter (state.rs:584 `- 1`, :588 `elapsed - remainder`). *)
+(** NO UNDERFLOW + NORMAL FORM, position limiter (state.rs:591 `- 1`, :595 `elapsed - remainder`). *)
 Theorem C05_ap_normal_form : forall (t0 : N) (ops : list apop) (now : N),
   nondec t0 (map apop_time (ops ++ [AReq now])) -> now < t0 + U64 ->
   exists s, ap_exec (ap_new t0) ops = Ok s /\
@@ -171,7 +171,7 @@ Print Assumptions C05_sys_liveness.
 
 (** FRAME AGE (staleness, first half), both configurations, any number of members.  The target
     and all bars exist at [lo]; calls on existing bars ([ops_valid]) at non-decreasing instants
-    from [lo] on, any mix of the seven operations on any members: at the instant of EVERY call
+    from [lo] on, any mix of the eight operations on any members: at the instant of EVERY call
     (the last one of [ops]; every prefix is again such a history) a frame has been painted - by
     whichever member's call - and the most recent one is younger than one refresh interval plus
     1 ms.  _partial: this bounds the AGE of the last frame.  That the frame also shows the
@@ -196,7 +196,7 @@ Print Assumptions C05_frame_age_partial.
 
 (** STALENESS (stand-alone).  A stand-alone bar (no steady ticker) on a target with refresh rate
     R, driven by any non-decreasing sequence of inc/dec/set_position/tick/set_message/set_length/
-    reset calls: at the instant of EVERY call (the last one of [ops]; every prefix is again such
+    set_prefix/reset calls: at the instant of EVERY call (the last one of [ops]; every prefix is again such
     a sequence) a frame has been painted, and the most recent one is younger than one refresh
     interval plus 1 ms.  Since a painted frame of a stand-alone bar shows the then-latest state
     (next theorem), a continuously updated stand-alone bar is never more than I + 1 ms stale.
@@ -365,7 +365,7 @@ Proof. vm_compute. repeat split; discriminate. Qed.
     message, prefix of the latest update.  The ghost [lat_step] never consults a limiter.
     Out of sync members are the narrow class documented in docs/C05.md (C05_nothing_lost_member_refuted). *)
 From IndModel Require Import MultiSpec MultiLatest.
-From IndProofs Require Import MultiLatestProofs.
+From IndProofs Require Import MultiLatestProofs LimiterMemberProofs.
 
 Theorem C05_nothing_lost :
   (forall (R t0 tb len0 : N) (ops : list (N * bop)) (k : nat) (out : sout),
@@ -497,4 +497,33 @@ Example C05_member_position_reaches_example :
   let x := get_bar (run 40 20 c5_nf c5_s0 ([(0, OInsert BEnd 0)] ++ map (fun _ => (5, OInc 0 1)) (seq 0 11))) 0 in
   ap_cap (b_ap x) = 0 /\ ap_prev (b_ap x) = 0 /\ pos_draw x (fun p => wadd64 p 1) 999999 = None
   /\ option_map b_pos (pos_draw x (fun p => wadd64 p 1) 1000000) = Some 12.
+Proof. vm_compute. repeat split. Qed.
+
+(** WHAT AN OUT-OF-SYNC MEMBER CAN BE STALE IN: THE POSITION ONLY.  A position update refused by the
+    member's own position limiter ([silent_change] of an inc / dec / set_position) stores the new
+    position and the limiter state and changes nothing else of the bar: length, message, prefix,
+    template, status and tick count keep their values, and the call writes nothing to the terminal.
+    set_length / set_message / set_prefix always reach BarState::draw, i.e. are draw steps
+    ([op_draw], C02_draw_step_current: the member's stored lines are then [frame_of] its new state),
+    and by C02_logic_change the only other call that changes a bar's logic state without a draw
+    step is set_style.  Hence, in the second conjunct of C05_nothing_lost, what a frame shows for a
+    member that is out of sync through refused position updates only (finding D27) differs from
+    its current state in the position alone: its length, message and prefix are the latest ones.
+    (The last step is a composition of these theorems in words, not a further theorem.) *)
+Theorem C05_member_refused_update_position_only :
+  forall (W H : N) (fails : N -> bool) (s : sys) (now : N) (o : op) (x : N),
+  match o with OInc _ _ | ODec _ _ | OSetPos _ _ => True | _ => False end ->
+  silent_change s now o x = true ->
+  let y := get_bar s x in let y' := get_bar (step_sys W H fails s now o) x in
+  b_len y' = b_len y /\ b_msg y' = b_msg y /\ b_prefix y' = b_prefix y /\ b_tmpl y' = b_tmpl y
+  /\ b_status y' = b_status y /\ b_tick y' = b_tick y /\ step_out W H fails s now o = [].
+Proof. exact silent_pos_keeps. Qed.
+Print Assumptions C05_member_refused_update_position_only.
+
+(** non-vacuity: the eleventh A.inc(1) at 5 ns of the D27 witness is such a call; A's position
+    becomes 11 *)
+Example C05_member_refused_update_example :
+  let s := run 40 20 c5_nf c5_s0 ([(0, OInsert BEnd 0)] ++ map (fun _ => (5, OInc 0 1)) (seq 0 10)) in
+  silent_change s 5 (OInc 0 1) 0 = true
+  /\ b_pos (get_bar s 0) = 10 /\ b_pos (get_bar (step_sys 40 20 c5_nf s 5 (OInc 0 1)) 0) = 11.
 Proof. vm_compute. repeat split. Qed.
